@@ -109,9 +109,11 @@ type Schema struct {
 	SubAsStr bool
 	Typedef  string // ViaTypedef: name of the typedef
 	Cons     []*Cons
-	RawType  string // malformed: rendered verbatim as the type argument
-	RawTail  string // malformed: extra raw arguments appended
-	RawForm  string // malformed: the whole defining form, verbatim
+	Base     *Schema // the base type is this validator, built earlier (Type is then ""); Cons are declared on top of it
+	BaseQ    bool    // render the base as 'name instead of name
+	RawType  string  // malformed: rendered verbatim as the type argument
+	RawTail  string  // malformed: extra raw arguments appended
+	RawForm  string  // malformed: the whole defining form, verbatim
 }
 
 func typeSrc(t string, asString bool) string {
@@ -211,6 +213,12 @@ func (s *Schema) Def() string {
 	}
 	if s.RawType != "" {
 		sb.WriteString(" " + s.RawType)
+	} else if s.Base != nil {
+		if s.BaseQ {
+			sb.WriteString(" '" + s.Base.Name)
+		} else {
+			sb.WriteString(" " + s.Base.Name)
+		}
 	} else if s.Via == ViaTypedef {
 		sb.WriteString(" " + typeSrc(s.Sub, s.SubAsStr))
 	} else {
@@ -265,6 +273,9 @@ func (s *Schema) Deps() []*Schema {
 			return
 		}
 		seen[x] = true
+		if x.Base != nil {
+			walkS(x.Base)
+		}
 		for _, c := range x.Cons {
 			walkC(c)
 		}
@@ -380,6 +391,13 @@ func widen(o Out) Out { // keep accept/reject decision, allow either reject cond
 
 // EvalSchema is the documented outcome of validating v with s.
 func EvalSchema(s *Schema, v *Value) Out {
+	if s.Base != nil {
+		// "exactly when the value has the declared type and satisfies every
+		// constraint": the declared type is the base validator's meaning, the
+		// constraints are declared on top of it.  Which of two failures is
+		// reported is not documented.
+		return conj([]Out{EvalSchema(s.Base, v), evalConsList(s.Cons, v)})
+	}
 	if s.Via == ViaTypedef {
 		if v.K != VTagged {
 			return WrongType
